@@ -743,6 +743,41 @@ func TestVerif_C14_ActiveTCPLoopback(t *testing.T) {
 		if !bytes.Equal(got, want) {
 			st.Fail(rt, "C14/activetcp/write-stream", "peer received a different byte stream")
 		}
+		// a packet too large for the write path (8193..65535 bytes), followed by ordinary ones: the write may be
+		// refused or the stream closed, but whatever the peer still receives are whole frames of packets that were
+		// written, in order — never a frame nobody wrote (e.g. the first 8192 bytes of the large packet)
+		oversize := 0
+		if rapid.IntRange(0, 2).Draw(rt, "oversizeWrite") == 0 {
+			oversize = rapid.SampledFrom([]int{8193, 8194, 8200, 16384, 20000, 65535}).Draw(rt, "oversizeLen")
+			big := bytes.Repeat([]byte{0xAB}, oversize)
+			after := rapid.SliceOfN(c14PacketGen(1500), 0, 2).Draw(rt, "afterOversize")
+			written := append([][]byte{big}, after...)
+			for _, p := range written {
+				_, _ = ac.WriteTo(p, nil)
+			}
+			var rest []byte
+			chunk := make([]byte, 70000)
+			for {
+				_ = peer.SetReadDeadline(time.Now().Add(250 * time.Millisecond))
+				n, rerr := peer.Read(chunk)
+				rest = append(rest, chunk[:n]...)
+				if rerr != nil {
+					break
+				}
+			}
+			frames, _ := c14ParseFrames(rest)
+			ptr := 0
+			for k, f := range frames {
+				if ptr == 0 && !bytes.Equal(written[0], f) {
+					ptr = 1 // the large packet itself may be missing
+				}
+				if ptr >= len(written) || !bytes.Equal(written[ptr], f) {
+					st.Fail(rt, "C14/activetcp/fabricated-frame-after-oversize-write", "after a WriteTo of %d bytes the peer received frame %d of %d bytes (first %x…) that is not the next packet written (later packets: %d)",
+						oversize, k, len(f), f[:min(len(f), 4)], len(after))
+				}
+				ptr++
+			}
+		}
 		tl, fl := []int{}, []int{}
 		for _, p := range toPeer {
 			tl = append(tl, len(p))
@@ -750,9 +785,9 @@ func TestVerif_C14_ActiveTCPLoopback(t *testing.T) {
 		for _, p := range fromPeer {
 			fl = append(fl, len(p))
 		}
-		st.Record(vfHash(tl, fl, split), len(tl)+len(fl) >= 3)
+		st.Record(vfHash(tl, fl, split, oversize), len(tl)+len(fl) >= 3, fmt.Sprintf("oversize-write:%v", oversize > 0))
 		if st.WantSample() {
-			st.Sample(func() string { return fmt.Sprintf("toPeer=%v fromPeer=%v split=%d", tl, fl, split) })
+			st.Sample(func() string { return fmt.Sprintf("toPeer=%v fromPeer=%v split=%d oversizeWrite=%d", tl, fl, split, oversize) })
 		}
 	})
 }
